@@ -304,8 +304,9 @@ Proof.
            replace (len s * n + len x * (n - 1) <? 0) with false by (symmetry; apply Z.ltb_ge; nia).
            destruct (len s * n + len x * (n - 1) =? 0) eqn:Z0; [|split; [reflexivity|lia]].
            apply Z.eqb_eq in Z0. split; [intros _|lia].
-           assert (len s = 0) by nia. assert (len x = 0) by nia.
-           destruct s; [|cbn [len length] in *; lia]. destruct x; [|cbn [len length] in *; lia].
+           assert (Es : len s = 0) by nia. assert (Ex : len x = 0) by nia.
+           destruct s as [|b0 s0]; [|exfalso; unfold len in Es; cbn [length] in Es; lia].
+           destruct x as [|b1 x0]; [|exfalso; unfold len in Ex; cbn [length] in Ex; lia].
            rewrite sep_copies_nil. reflexivity.
         -- apply Z.ltb_ge in C.
            replace (wrap (len s * n + len x * (n - 1)) <? 0) with true.
